@@ -12,15 +12,37 @@ prop("C01", "fault_enumeration",
      "bubble. Oracle (implication only): Client.Handshake()==nil => the server identity satisfies the client's policy and holds the "
      "certified key; discoverable: Accept offers a connection => the client identity satisfies the server's policy and holds its key; "
      "both modes: Handle.ReadMsg delivers data => same. Honest valid identities must be served (sanity). Non-trivial = counterpart is "
-     "not the honest valid identity; distinct by (mode, direction, identity, policy).",
+     "not the honest valid identity; distinct by (mode, direction, identity, policy). "
+     "Family 'real clock' (rapid): VerifyConfig.CurrentTime is left zero on both sides, so validity is judged against the clock - the "
+     "bubble's virtual clock; per case a fresh certificate world (root, intermediate, server leaf, 1-3 client leaves, some with their "
+     "key in the server's authorized-key set) whose validity windows [start+a s, start+a+d s) begin and end while the case runs; ONE "
+     "long-running server; a generated sequence of 1-6 handshakes (which client, preceded by a sleep of 0-70 virtual s; handshakes "
+     "happen on half seconds, window edges on whole seconds), both modes, server policy CA store with/without authorized keys. "
+     "Oracle per handshake, evaluated at its own virtual instant t: Handshake()==nil => server leaf valid at t; discoverable: Accept "
+     "offers => client leaf valid at t (or authorized key); both modes: data delivered => same; sanity: both valid at t => "
+     "handshake, accept and delivery succeed. Non-trivial = >=2 handshakes and some certificate invalid at one of them; the label "
+     "'validity-of-one-identity-differs-between-handshakes' counts the cases where the same certificate is judged on both sides of "
+     "a window edge. Family 'interrupted' (rapid): 1-6 goroutines enter ONE Client concurrently through Handshake / WriteMsg / Write "
+     "/ ReadMsg / Read (all run the handshake first) with generated start delays; the server is absent (nothing reaches it), silent "
+     "(no answer reaches the client), stops answering after its first handshake message, or is honest behind a one-way latency of "
+     "0-200 ms; HSTimeout 0 / 50 ms / 2 s; 1-3 concurrent Close calls at a generated virtual time (0-3 s) or only after all callers "
+     "returned; yield schedule (Gosched or virtual sleeps) at the verif-tagged points in Client.Handshake (elected, beforeOpen, "
+     "beforeDone) and Client.Close (elected, connClosed, beforePublish). Oracle: ANY of these calls returning nil => the server's "
+     "proving message (ServerAuth / ServerResponseHidden) had been delivered to the client's socket when the call returned (network "
+     "log); no call panics; after Handshake()==nil a WriteMsg does not panic; sanity: honest reachable server, no early Close => the "
+     "handshakers and writers succeed. Non-trivial = >=2 callers and Close at a generated time.",
      ["ML-KEM, X25519, Ed25519 and the duplex are not attacked by search; impostors are structural (valid certificate, other key)",
       "the policy predicate models the documented VerifyConfig semantics (authorized keys: leaf format + key in set; InsecureSkipVerify skips all chain and name checks; nil ClientVerify = no verification)",
       "in-flight garbage in MAC/tag fields and transplants are covered by C02's sweep"],
      [dict(name="matrix", pkg="transport", run="^TestVerifC01Matrix$", shards=dict(quick=16, thorough=16), timeout=dict(quick=900, thorough=3600)),
-      dict(name="random", pkg="transport", run="^TestVerifC01Random$", shards=dict(quick=8, thorough=16), thorough_scale=60)],
+      dict(name="random", pkg="transport", run="^TestVerifC01Random$", shards=dict(quick=8, thorough=16), thorough_scale=60),
+      dict(name="realclock", pkg="transport", run="^TestVerifC01RealClock$", shards=dict(quick=16, thorough=16), thorough_scale=20),
+      dict(name="interrupted", pkg="transport", run="^TestVerifC01Interrupted$", shards=dict(quick=16, thorough=16), thorough_scale=20)],
      exhaustive_core=True,
      text="Enumerated matrix of counterpart kinds x verification policies x modes x directions run through the real handshake code, "
-          "judged by a policy predicate over how each identity was constructed; rapid adds arbitrary attribute combinations.",
+          "judged by a policy predicate over how each identity was constructed; rapid adds arbitrary attribute combinations, sequences "
+          "of handshakes under the (virtual) real clock with certificates that become valid and expire while one server runs, and "
+          "concurrent callers on one client whose handshake is interrupted by Close against an absent, silent or late server.",
      note="trusts synctest, simnet, the policy predicate (written from config.go's documentation) and the certs issuing API used to build identities",
      technique="enumerated configuration/fault matrix + property-based sampling (rapid) against a policy predicate",
      design="DESIGN.md section 4, C01")
